@@ -41,7 +41,7 @@ let cls = function
   | ESegOverflow -> "seg-overflow" | ETooManySegs -> "too-many-segments" | ETooLarge -> "too-large"
   | EConfig -> "config" | EReadHeader -> "unexpected-eof/hdr" | EReadSegs -> "unexpected-eof/segs"
   | ENoSegs -> "no-segments" | EHdrOverflow -> "hdr-overflow" | ESegTooLarge -> "seg-too-large"
-  | EUnaligned -> "unaligned" | ESizeOverflow -> "size-overflow"
+  | EUnaligned -> "unaligned" | ESizeOverflow -> "size-overflow" | EUnpack -> "unpack"
 
 let zstr z = match z with
   | Z0 -> "0"
@@ -86,22 +86,31 @@ let show_decode st (out, log) maxv =
   | DPanic -> "panic"
 
 let run_decode packed maxv chunks ops stream =
-  let rd = if packed then (match packed_reader stream with Some r -> r | None -> failwith "fuel")
-           else { r_chunks = chunk_stream chunks stream; r_final = EOF } in
-  let st = ref (d_init rd maxv) in
   let outs = ref [] in
-  let dead = ref false in
-  List.iter (fun o ->
-    if not !dead then begin
-    let (st', r) = dstep_gen !seglimit_fixed !st o in
-    st := st';
-    match r with
-    | Some x ->
-      outs := show_decode st' x st'.d_max :: !outs;
-      (* packed path: the history ends with the first outcome that is not a message (the state of
-         packed.Reader after an error is not part of this model) *)
-      (match x with (DMsg _, _) -> () | _ -> if packed then dead := true)
-    | None -> () end) ops;
+  if packed then begin
+    (* NewPackedDecoder: the Decoder over the C13 model of packed.Reader.Read; bufio's answers
+       (fast path / short read) are oracles, fixed to false here: by the C14 packed theorems the
+       outcome does not depend on them up to the first outcome that is not a message *)
+    let st = ref (d_init (p_init (fun _ -> (false, false)) stream) maxv) in
+    let dead = ref false in
+    List.iter (fun o ->
+      if not !dead then begin
+      let (st', r) = pdstep !seglimit_fixed !st o in
+      st := st';
+      match r with
+      | Some x ->
+        outs := show_decode st' x st'.d_max :: !outs;
+        (match x with (DMsg _, _) -> () | _ -> dead := true)
+      | None -> () end) ops
+  end else begin
+    let st = ref (d_init { r_chunks = chunk_stream chunks stream; r_final = EOF } maxv) in
+    List.iter (fun o ->
+      let (st', r) = dstep_gen !seglimit_fixed !st o in
+      st := st';
+      match r with
+      | Some x -> outs := show_decode st' x st'.d_max :: !outs
+      | None -> ()) ops
+  end;
   String.concat " " (List.rev !outs)
 
 let show_bytes = function Ok b -> "ok " ^ render b | Err e -> "err " ^ cls e | Panic -> "panic"
@@ -111,6 +120,12 @@ let () =
   iter_lines (fun line ->
   match split_ws line with
   | "marshal" :: _ :: s :: _ -> print_endline (show_bytes (marshal (segs_of_expr s)))
+  | "marshalpacked" :: _ :: s :: _ -> print_endline (show_bytes (marshal_packed (segs_of_expr s)))
+  | "unmarshalpacked" :: b :: _ ->
+    print_endline (match unmarshal_packed (bytes_of_expr b) with
+      | Ok segs -> Printf.sprintf "ok %d %s" (List.length segs) (render_segs segs)
+      | Err e -> "err " ^ cls e
+      | Panic -> "panic")
   | "unmarshal" :: b :: _ ->
     let data = bytes_of_expr b in
     let a = if zle (unmarshal_alloc data) (Model.Z.mul (z_of_int 6) (len data)) then "A1" else "A0" in
